@@ -214,6 +214,7 @@ class Recorder:
         self.rules: Dict[str, str] = {}
         self.assumptions: List[str] = []
         self.extra: Dict[str, Any] = {}
+        self.sub_seconds: Dict[str, float] = {}  # wall time per sub-check (drivers in this process only)
         self.only: Optional[set] = None  # debugging: restrict drive_hypothesis / drive_cases to these sub-checks
         self.t0 = time.time()
 
@@ -336,6 +337,7 @@ class Recorder:
             "known_finding_hits": dict(self.known_hits),
             "exhaustive_subchecks": {k: v for k, v in self.exhaustive.items()},
             "exhaustive": bool(self.exhaustive) and all(self.exhaustive.values()),
+            "seconds_per_subcheck": dict(self.sub_seconds),
         }
         cov.update(self.extra)
         ev = {
@@ -389,6 +391,14 @@ def drive_hypothesis(
     per shard, seed = f(VERIF_SEED, shard)); the shard recorders are merged."""
     if rec.only is not None and sub not in rec.only:
         return
+    _t0 = time.time()
+    try:
+        return _drive_hypothesis(rec, sub, strategy, oracle, max_examples, seed_offset, max_buckets, shrink, parallel)
+    finally:
+        rec.sub_seconds[sub] = round(rec.sub_seconds.get(sub, 0.0) + time.time() - _t0, 2)
+
+
+def _drive_hypothesis(rec, sub, strategy, oracle, max_examples, seed_offset=0, max_buckets=None, shrink=True, parallel=True) -> None:
     if parallel and rec.tier == "thorough" and max_examples >= 3000 and ncpu() > 1:
         shards = min(16, ncpu())
         key = f"{rec.pid}/{sub}"
@@ -488,6 +498,7 @@ def drive_cases(
     if rec.only is not None and sub not in rec.only:
         return
     oracle = guarded(oracle)
+    _t0 = time.time()
     for case in cases:
         res = oracle(case)
         rec.count(sub, case, res, want_sample=sample)
@@ -496,6 +507,7 @@ def drive_cases(
         for f in new:
             rec.add_violation(sub, f, case)
             rec.skip.add(f.bucket)
+    rec.sub_seconds[sub] = round(rec.sub_seconds.get(sub, 0.0) + time.time() - _t0, 2)
 
 
 def _fresh_thread_pools() -> None:
